@@ -1,7 +1,7 @@
 /- Line-protocol driver for M3 Registry (property C14).  Names are interned integers, `-` = None.
 
   reset coded|repaired                      -> ready
-  aj n pat | at n curve | ar n pat | ap n a b | apu n a b H|P curve pat | av n a b kind curve
+  aj n pat [O] | ad n pat [O] | dd n idx | af n pat | rf n | al n 0|1 0|1 | rlk n | at n curve | ar n pat | ap n a b | apu n a b H|P curve pat | av n a b kind curve
   apat n | acur n type | asrc n node pat | actl n nodes links [style] | uctl n nodes links
   rn n wc force | rl n wc force | rpat n | rcur n | rsrc n | rctl n
   ss l n | se l n | ssp l pat | spc l c | shp n pat | svc n c | shc l c
@@ -16,6 +16,15 @@ open Wntr.Registry
 def optS (o : Option Nat) : String := match o with | none => "-" | some n => toString n
 def joinS (sep : String) (l : List String) : String := sep.intercalate l
 
+instance : BEq NodeKind := ⟨fun a b => decide (a = b)⟩
+/-- the demand entries of a junction: pattern (`-` = none), `*` marks the fire-flow entry; `.`-separated, `~` when empty -/
+def demS (l : List (Option Nat × Bool)) : String :=
+  if l.isEmpty then "~" else ".".intercalate (l.map fun (p, f) => (match p with | none => "-" | some n => toString n) ++ (if f then "*" else ""))
+def demP (t : String) : Option (List (Option Nat × Bool)) :=
+  if t == "~" then some [] else (t.splitOn ".").mapM fun e =>
+    let f := e.endsWith "*"
+    let b := if f then (e.dropEnd 1).toString else e
+    if b == "-" then some (none, f) else b.toNat?.map (fun n => (some n, f))
 def nkS : NodeKind → String | .junction => "j" | .tank => "t" | .reservoir => "r"
 def lkS : LinkKind → String
   | .pipe => "pipe" | .headPump => "hpump" | .powerPump => "ppump" | .prv => "prv" | .psv => "psv"
@@ -47,7 +56,7 @@ def usageS (m : List (Name × List User)) : String :=
   joinS "," (m.map fun (k, us) => s!"{k}={joinS "+" (us.map fun (u, ty) => s!"{u}.{ukS ty}")}")
 
 def primaryS (s : Reg) : String :=
-  let n := joinS "," (s.nodes.map fun (k, i) => s!"{k}:{nkS i.kind}:{optS i.pat}:{optS i.curve}")
+  let n := joinS "," (s.nodes.map fun (k, i) => s!"{k}:{nkS i.kind}:{if i.kind == .junction then demS i.demands else optS i.pat}:{optS i.curve}")
   let l := joinS "," (s.links.map fun (k, i) => s!"{k}:{lkS i.kind}:{i.start}:{i.end_}:{optS i.pat}:{optS i.curve}")
   let src := joinS "," (s.sources.map fun (k, i) => s!"{k}:{i.node}:{optS i.pat}")
   let t := joinS "," (allTSets.map fun t => s!"{tsS t}={namesS (s.typed t)}")
@@ -71,7 +80,15 @@ def boolP (t : String) : Option Bool := if t == "1" then some true else if t == 
 
 def parseOp (ts : List String) : Option Op :=
   match ts with
-  | ["aj", n, p] => do pure (.addJunction (← n.toNat?) (← optP p))
+  | ["aj", n, p] => do pure (.addJunction (← n.toNat?) (← optP p) false)
+  | ["aj", n, p, "O"] => do pure (.addJunction (← n.toNat?) (← optP p) true)
+  | ["ad", n, p] => do pure (.addDemand (← n.toNat?) (← optP p) false)
+  | ["ad", n, p, "O"] => do pure (.addDemand (← n.toNat?) (← optP p) true)
+  | ["dd", n, i] => do pure (.delDemand (← n.toNat?) (← i.toNat?))
+  | ["af", n, p] => do pure (.addFire (← n.toNat?) (← p.toNat?))
+  | ["rf", n] => do pure (.removeFire (← n.toNat?))
+  | ["al", n, a, b] => do pure (.addLeak (← n.toNat?) (← boolP a) (← boolP b))
+  | ["rlk", n] => do pure (.removeLeak (← n.toNat?))
   | ["at", n, c] => do pure (.addTank (← n.toNat?) (← optP c))
   | ["ar", n, p] => do pure (.addReservoir (← n.toNat?) (← optP p))
   | ["ap", n, a, b] => do pure (.addPipe (← n.toNat?) (← a.toNat?) (← b.toNat?))
@@ -124,7 +141,10 @@ def parseSnap (line : String) : Option (Reg × Views) := do
   let secs := line.splitOn "|"
   let nodes ← (listP "," (← section? secs "N")).mapM fun r =>
     match r.splitOn ":" with
-    | [k, kd, p, c] => do pure ((← k.toNat?), (⟨← nkP kd, ← optP p, ← optP c, 0⟩ : NodeInfo))
+    | [k, kd, p, c] => do
+      let kind ← nkP kd
+      if kind == .junction then pure ((← k.toNat?), (⟨kind, none, ← optP c, ← demP p, 0⟩ : NodeInfo))
+      else pure ((← k.toNat?), (⟨kind, ← optP p, ← optP c, [], 0⟩ : NodeInfo))
     | _ => none
   let links ← (listP "," (← section? secs "L")).mapM fun r =>
     match r.splitOn ":" with
